@@ -7,6 +7,8 @@
 -/
 import BlocV.Model.Store
 import BlocV.Proofs.Lemmas.Store
+import BlocV.Model.StoreX
+import BlocV.Proofs.Lemmas.StoreX
 
 namespace BlocV.C05
 open BlocV BlocV.Lemmas
@@ -733,5 +735,303 @@ example :
     let prog : List (Nat × LExpr) := [(1, .var 0), (0, .bin .add (.var 0) (.cst 1)), (0, .un .neg (.var 0))]
     FlagInv σ ∧ ∃ σ', runAssigns prog σ = .ok σ' ∧ (σ'.get (.var 1)).val = .int 5 ∧ (σ'.get (.var 0)).val = .int (-6) := by
   refine ⟨⟨by simp, by simp⟩, _, rfl, rfl, rfl⟩
+
+
+/-! ## The extended storage model (Model/StoreX.lean): elements, in-place members, constructors, assignment, calls -/
+
+section Extended
+open BlocV.LemmasX
+
+/-- one step of the frame proof: glue, primitives, the induction hypothesis -/
+macro "pres_auto" ih:ident : tactic => `(tactic| repeat (first
+  | exact Pres.pure _ | exact Pres.fail _ | exact Pres.lift _ | exact pres_xget _ | exact pres_logLen | exact pres_checkHeld _ _
+  | exact pres_xalloc _ | exact pres_xlval1 _ _ | exact pres_xlval2 _ _ _ | exact pres_xplace _ _ _ _ | exact pres_takeArg _
+  | exact pres_wrRecv _ _ | exact pres_recvCell _ _ | exact pres_finishInPlace _ _ _ _ _ | exact pres_atResult _ _ _ _
+  | exact $ih _ | exact pres_tabStep ($ih _) _ _ _ | exact pres_tupStep $ih _ _ | exact pres_call $ih _ _
+  | apply Pres.bind | apply Pres.ite | split | intro _))
+
+/-- Every expression of the extended language respects the frame discipline (`LemmasX.Frame`), for every function
+table and every fuel: glue lemma behind `evalX_frame`. -/
+theorem evalX_pres (F : List XFun) : ∀ fuel e, Pres (evalX F fuel e)
+  | 0, e => by simp only [evalX]; exact Pres.fail _
+  | fuel + 1, e => by
+    have ih := evalX_pres F fuel
+    cases e with
+    | cst i =>
+      intro s a s' _ h
+      simp only [evalX] at h
+      split at h <;> cases h
+      exact Frame.refl _
+    | var i =>
+      intro s a s' _ h
+      simp only [evalX] at h
+      split at h <;> cases h
+      exact Frame.refl _
+    | un op a => simp only [evalX]; pres_auto ih
+    | bin op a b => simp only [evalX]; pres_auto ih
+    | mem m r args => simp only [evalX]; pres_auto ih
+    | item r idx => simp only [evalX]; pres_auto ih
+    | setItem r idx a => simp only [evalX]; pres_auto ih
+    | tab0 => simp only [evalX]; pres_auto ih
+    | tab n a => simp only [evalX]; pres_auto ih
+    | tup args => simp only [evalX]; pres_auto ih
+    | call f args => simp only [evalX]; pres_auto ih
+
+/-- Statements respect the same discipline (assignment logs its target). -/
+theorem execX_pres (F : List XFun) (fuel : Nat) (st : XStmt) : Pres (execX F fuel st) := by
+  have ih := evalX_pres F fuel
+  cases st <;> simp only [execX]
+  · exact Pres.bind (ih _) (fun x => Pres.bind (pres_xstoreVar _ x) (fun _ => pres_xendStatement))
+  · exact Pres.bind (ih _) (fun _ => pres_xendStatement)
+  · exact Pres.bind (ih _) (fun _ => pres_xendStatement)
+
+theorem execXs_pres (F : List XFun) (fuel : Nat) : ∀ sts, Pres (execXs F fuel sts)
+  | [] => by simp only [execXs]; exact Pres.pure _
+  | st :: rest => by
+    simp only [execXs]
+    exact Pres.bind (execX_pres F fuel st) (fun _ => execXs_pres F fuel rest)
+
+/-- **(a) Extended frame theorem.** For every function table, fuel, expression of the extended language (constants,
+variables, operators, `at`, `count`, `put`, `insert`, `delete`, `concat`, `@N`, `set@N`, `tab`, `tup`, user-function
+calls) and every state satisfying the flag invariant: if the evaluation succeeds then
+* the log only grows — the new entries `fp` are the footprint of this evaluation: exactly the non-temporary roots an
+  in-place member (of the expression or of a function it calls, there: constant nodes only) wrote through,
+* every variable slot and every constant node that is NOT in the log afterwards is untouched — value, all of its
+  elements and items at every depth, and flag (`root?` returns the whole cell),
+* no slot appears or disappears and no flag of a variable / constant changes, wherever the footprint lies. -/
+theorem evalX_frame (F : List XFun) (fuel : Nat) (e : XExpr) (s s' : XS) (x : XLoc) (hinv : FlagInvX s)
+    (h : evalX F fuel e s = .ok (x, s')) :
+    (∃ fp, s'.log = fp ++ s.log) ∧
+    (∀ r, NonTmp r → r ∉ s'.log → s'.st.root? r = s.st.root? r) ∧
+    (∀ r, NonTmp r → (s'.st.root? r).map (·.lv) = (s.st.root? r).map (·.lv)) :=
+  let fr := evalX_pres F fuel e s x s' hinv h
+  ⟨fr.log, fr.keep, fr.flag⟩
+
+/-- **(c) The flag invariant is preserved by every construct**: expressions (all members, constructors, calls —
+inside a call the callee context satisfies it too: that is how `pres_inCallee` is proved), assignment statements,
+statement lists. -/
+theorem flagInvX_preserved_expr (F : List XFun) (fuel : Nat) (e : XExpr) (s s' : XS) (x : XLoc) (hinv : FlagInvX s)
+    (h : evalX F fuel e s = .ok (x, s')) : FlagInvX s' :=
+  (evalX_pres F fuel e s x s' hinv h).flagInv hinv
+
+theorem flagInvX_preserved (F : List XFun) (fuel : Nat) (sts : List XStmt) (s s' : XS) (hinv : FlagInvX s)
+    (h : execXs F fuel sts s = .ok ((), s')) : FlagInvX s' :=
+  (execXs_pres F fuel sts s () s' hinv h).flagInv hinv
+
+/-- **(d) Independence after a copy, for ALL subsequent statement sequences.** Whatever statements run later
+(assignments, in-place members on any receiver, calls, constructors …): a variable slot or constant node that is not
+in the log of that run still holds exactly what it held before it. In particular after `b = a`, `t = tab(n, a)`,
+`u = tup(a, …)` or `f(a)`: a later in-place change whose receiver is rooted at `a` logs `a` only, so `b` / `t` / `u` /
+the callee's parameter cannot change through it, and vice versa. -/
+theorem later_ops_leave_others (F : List XFun) (fuel : Nat) (ops : List XStmt) (s s' : XS) (hinv : FlagInvX s)
+    (h : execXs F fuel ops s = .ok ((), s')) (r : Loc) (hr : NonTmp r) (hn : r ∉ s'.log) :
+    s'.st.root? r = s.st.root? r :=
+  (execXs_pres F fuel ops s () s' hinv h).keep r hr hn
+
+/-- `b = a;` for variables `a ≠ b` of ANY type (tables of tables, tuples …): `b` receives `a`'s value (a clone: `a`
+carries the flag), `a` and every other slot and constant are untouched, only `b` is logged. -/
+theorem assign_var_copies (F : List XFun) (fuel : Nat) (s : XS) (a b : Nat) (ca : Cell) (hinv : FlagInvX s)
+    (ha : s.st.vars[a]? = some ca) (hb : b < s.st.vars.length) (hab : a ≠ b) :
+    ∃ s', execX F (fuel + 1) (.assign b (.var a)) s = .ok ((), s') ∧
+      s'.st.root? (.var b) = some { val := ca.val, lv := true } ∧
+      (∀ r, r ≠ .var b → NonTmp r → s'.st.root? r = s.st.root? r) ∧ s'.log = .var b :: s.log := by
+  have hlt : a < s.st.vars.length := (List.getElem?_eq_some_iff.mp ha).1
+  have hlv : ca.lv = true := hinv.1 ca (List.mem_of_getElem? ha)
+  have hget : s.st.getX { root := .var a, path := [] } = some ca := by
+    simp only [Store.getX, Store.root?, ha, Val.getP]
+  have hne : ({ root := .var a, path := [] } : XLoc) ≠ { root := .var b, path := [] } := by
+    intro e; injection e with e1 _; injection e1 with e2; exact hab e2
+  refine ⟨{ st := endStatement (s.st.set (.var b) { val := ca.val, lv := true }), log := .var b :: s.log }, ?_, ?_, ?_, rfl⟩
+  · simp only [execX, evalX, XM.bind, hlt, if_true, xstoreVar, if_neg hne, takeArg, hget, hlv, xsetVar, hb, xendStatement]
+  · obtain ⟨c0, hc0⟩ : ∃ c0, s.st.root? (.var b) = some c0 := ⟨s.st.vars[b], by simp [Store.root?, hb]⟩
+    exact root_set_eq _ _ _ _ hc0
+  · intro r hr _
+    exact root_set_ne _ _ _ _ hr
+
+/-- Non-vacuity of (a), (c), (d) and the behaviour on elements: `x1 = x0;` for a table of tables `x0`, then
+`x0.at(0).put(1, 5)` writes THROUGH the element reference into `x0` (footprint = {x0}) and `x1` keeps the old value. -/
+example :
+    let t : Val := .tab { major := .int, level := 1 } [] [.int 7, .int 7]
+    let tt : Val := .tab { major := .int, level := 2 } [] [t, t]
+    let s : XS := { st := { vars := [⟨tt, true⟩, ⟨.null Ty.none, true⟩], csts := [⟨.int 0, true⟩, ⟨.int 1, true⟩, ⟨.int 5, true⟩], pool := [], wm := 0 } }
+    let prog : List XStmt := [.assign 1 (.var 0), .doE (.mem .put (.mem .at (.var 0) [.cst 0]) [.cst 1, .cst 2])]
+    FlagInvX s ∧ ∃ s', execXs [] 6 prog s = .ok ((), s') ∧
+      (s'.st.vars.map (·.val)) = [.tab { major := .int, level := 2 } [] [.tab { major := .int, level := 1 } [] [.int 7, .int 5], t], tt] ∧
+      s'.log = [.var 0, .var 1] := by
+  refine ⟨⟨by simp, by simp⟩, _, rfl, rfl, rfl⟩
+
+/-- The repaired behaviour (876bec0; before it this very evaluation left "abcx" in the constant node — finding
+C05.constant_modified_in_place, `("abc" + null).concat("x")` printed abcx, abcxx, abcxxx in a loop): `+` hands the cell
+of the literal through, `receiver()` clones it, `concat` appends to the clone: the constant node is untouched, the
+footprint is empty, the result is "abcx" in a temporary. -/
+theorem const_receiver_cloned :
+    let s : XS := { st := { vars := [], csts := [⟨.str [97, 98, 99], true⟩, ⟨.null Ty.none, true⟩, ⟨.str [120], true⟩], pool := [], wm := 0 } }
+    let e : XExpr := .mem .concat (.bin .add (.cst 0) (.cst 1)) [.cst 2]
+    FlagInvX s ∧ ∃ x s', evalX [] 4 e s = .ok (x, s') ∧ s'.st.csts = s.st.csts ∧ s'.log = [] ∧
+      (s'.st.getX x).map (·.val) = some (.str [97, 98, 99, 120]) := by
+  refine ⟨⟨by simp, by simp⟩, _, _, rfl, rfl, rfl, rfl⟩
+
+/-- Likewise for a variable handed through (finding C05.inplace_member_on_passed_through_operand, repaired by 876bec0):
+`(x0 + null).concat("x")` no longer appends to `x0`; `x0.concat("x")` of course still does (footprint {x0}). -/
+theorem passthrough_cloned :
+    let s : XS := { st := { vars := [⟨.str [97, 98], true⟩], csts := [⟨.null Ty.none, true⟩, ⟨.str [120], true⟩], pool := [], wm := 0 } }
+    (∃ x s', evalX [] 4 (.mem .concat (.bin .add (.var 0) (.cst 0)) [.cst 1]) s = .ok (x, s') ∧ s'.st.vars = s.st.vars ∧ s'.log = []) ∧
+    (∃ x s', evalX [] 4 (.mem .concat (.var 0) [.cst 1]) s = .ok (x, s') ∧ s'.st.root? (.var 0) = some ⟨.str [97, 98, 120], true⟩ ∧ s'.log = [.var 0]) := by
+  exact ⟨⟨_, _, rfl, rfl, rfl⟩, ⟨_, _, rfl, rfl, rfl⟩⟩
+
+/-- A function result is a temporary: `idf(x0).concat("x")` does NOT touch `x0` (empty footprint). -/
+example :
+    let s : XS := { st := { vars := [⟨.str [97, 98], true⟩], csts := [⟨.str [120], true⟩], pool := [], wm := 0 } }
+    let idf : XFun := { nparams := 1, locals := [Ty.none], body := [.ret (.var 0)] }
+    let e : XExpr := .mem .concat (.call 0 [.var 0]) [.cst 0]
+    ∃ x s', evalX [idf] 5 e s = .ok (x, s') ∧ s'.st.vars = s.st.vars ∧ s'.log = [] ∧ (s'.st.getX x).map (·.val) = some (.str [97, 98, 120]) := by
+  exact ⟨_, _, rfl, rfl, rfl, rfl⟩
+
+/-- **Dangling element reference** (finding C05.dangling_element_reference): in `x0.at(0).put(0, x0.concat(x0).count())`
+the reference `x0.at(0)` is held while the last operand grows `x0` in place; the model answers `hazard oob`
+(AddressSanitizer: heap-use-after-free in member_put.cpp:42 on the real library). -/
+theorem dangling_witness :
+    let t : Val := .tab { major := .int, level := 1 } [] [.int 7, .int 7]
+    let tt : Val := .tab { major := .int, level := 2 } [] [t, t]
+    let s : XS := { st := { vars := [⟨tt, true⟩], csts := [⟨.int 0, true⟩], pool := [], wm := 0 } }
+    let e : XExpr := .mem .put (.mem .at (.var 0) [.cst 0]) [.cst 0, .mem .count (.mem .concat (.var 0) [.var 0]) []]
+    evalX [] 6 e s = .haz .oob := by
+  rfl
+
+/-- leaves of the result-root analysis -/
+macro "root_leaf" hfin:ident : tactic => `(tactic| first
+  | exact RootFrom.fail _
+  | exact RootFrom.mono $hfin (rootFrom_finishInPlace _ _ _ _ _)
+  | exact RootFrom.mono $hfin (rootFrom_atResult _ _ _ _)
+  | exact RootFrom.mono $hfin (rootFrom_xlval1 _ _)
+  | exact RootFrom.pure _ ($hfin _ (Or.inl rfl)))
+
+macro "root_chain" hfin:ident : tactic => `(tactic| repeat (first
+  | root_leaf $hfin
+  | (apply RootFrom.bind_last; intro _) | apply RootFrom.ite | split))
+
+/-- A storage expression (`XExpr.isStorage`: variable, element, item, chained type method) that evaluates to a cell
+of (or inside) a variable slot is rooted at exactly that variable (`rootVar`); anything else it returns is a temporary. -/
+theorem storage_root (F : List XFun) : ∀ fuel e (i : Nat), e.isStorage = true →
+    RootFrom (fun ρ => ρ = .var i → rootVar e = some i) (evalX F fuel e)
+  | 0, e, i, _ => by simp only [evalX]; exact RootFrom.fail _
+  | fuel + 1, e, i, hst => by
+    cases e with
+    | var j =>
+      intro s x s' h
+      simp only [evalX] at h
+      split at h <;> cases h
+      intro e; simp only [rootVar]; injection e with e; rw [e]
+    | item r idx =>
+      simp only [XExpr.isStorage] at hst
+      simp only [evalX]
+      refine RootFrom.bind_with (fun s a s1 hm => ?_)
+      refine RootFrom.bind_last (fun c => RootFrom.bind_last (fun _ => RootFrom.pure _ ?_))
+      intro e; simp only [rootVar]; exact storage_root F fuel r i hst s a s1 hm e
+    | setItem r idx a =>
+      simp only [XExpr.isStorage] at hst
+      simp only [evalX]
+      refine RootFrom.bind_with (fun s xr s1 hm => ?_)
+      refine RootFrom.bind_with (fun s2 x s3 hr => ?_)
+      have hx := rootFrom_recvCell r xr s2 x s3 hr
+      have hfin : ∀ ρ, (ρ = x.root ∨ IsTmp ρ) → (ρ = .var i → rootVar (.setItem r idx a) = some i) := by
+        intro ρ h1 h2
+        simp only [rootVar]
+        rcases h1 with h1 | h1
+        · rcases hx with hx | hx
+          · exact storage_root F fuel r i hst s xr s1 hm (by rw [← hx, ← h1, h2])
+          · rw [← h1, h2] at hx; exact hx.elim
+        · rw [h2] at h1; exact h1.elim
+      root_chain hfin
+    | mem m r args =>
+      simp only [XExpr.isStorage, Bool.and_eq_true] at hst
+      simp only [evalX]
+      refine RootFrom.bind_with (fun s xr s1 hm => ?_)
+      refine RootFrom.bind_with (fun s2 x s3 hr => ?_)
+      have hx : x.root = xr.root ∨ IsTmp x.root :=
+        (RootFrom.ite (RootFrom.pure xr (Or.inl rfl)) (rootFrom_recvCell r xr)) s2 x s3 hr
+      have hfin : ∀ ρ, (ρ = x.root ∨ IsTmp ρ) → (ρ = .var i → rootVar (.mem m r args) = some i) := by
+        intro ρ h1 h2
+        simp only [rootVar]
+        rcases h1 with h1 | h1
+        · rcases hx with hx | hx
+          · exact storage_root F fuel r i hst.2 s xr s1 hm (by rw [← hx, ← h1, h2])
+          · rw [← h1, h2] at hx; exact hx.elim
+        · rw [h2] at h1; exact h1.elim
+      root_chain hfin
+    | cst _ => simp [XExpr.isStorage] at hst
+    | un _ _ => simp [XExpr.isStorage] at hst
+    | bin _ _ _ => simp [XExpr.isStorage] at hst
+    | tab0 => simp [XExpr.isStorage] at hst
+    | tab _ _ => simp [XExpr.isStorage] at hst
+    | tup _ => simp [XExpr.isStorage] at hst
+    | call _ _ => simp [XExpr.isStorage] at hst
+
+/-- **An in-place member changes a variable cell only through a storage receiver rooted at that variable.**
+`xr` is the cell the receiver expression `r` evaluates to, `x` the cell `MemberExpression::receiver()` hands to
+put / insert / delete / concat / set@ (`recvCell`), i.e. the ONLY cell those members write (`wrRecv x …`). If `x` is a
+variable slot or lies inside one (`x.root = .var i`), then `r` is a storage expression (`isStorage`: a variable, or an
+element / item / chained type method of one), it is rooted at that very variable (`rootVar r = some i`), and no copy
+was made (`x = xr`). Contrapositive: a receiver that merely hands an operand through (`(s + null)`, `substr("", 0)`,
+`idf(s)` …) is cloned or is a temporary — the member cannot reach a variable. For ALL function tables, fuels,
+expressions and states satisfying the flag invariant. -/
+theorem inplace_only_through_storage (F : List XFun) (fuel : Nat) (r : XExpr) (s s1 s2 : XS) (xr x : XLoc) (i : Nat)
+    (hinv : FlagInvX s) (hev : evalX F fuel r s = .ok (xr, s1)) (hrc : recvCell r xr s1 = .ok (x, s2))
+    (hroot : x.root = .var i) : r.isStorage = true ∧ rootVar r = some i ∧ x = xr := by
+  have hinv1 : FlagInv s1.st := (evalX_pres F fuel r s xr s1 hinv hev).flagInv hinv
+  -- the receiver cell is the evaluated one, not a clone
+  have hrc' := hrc
+  simp only [recvCell, XM.bind, xget] at hrc'
+  cases hg : s1.st.getX xr with
+  | none => rw [hg] at hrc'; cases hrc'
+  | some c =>
+    rw [hg] at hrc'
+    simp only at hrc'
+    split at hrc'
+    · have := rootFrom_xalloc c.val s1 x s2 hrc'
+      rw [hroot] at this; exact this.elim
+    · rename_i hcond
+      simp only [XM.pure] at hrc'
+      cases hrc'
+      -- the cell carries the flag: its root is a variable slot
+      have hlv : c.lv = true := by
+        unfold Store.getX at hg
+        cases hr : s1.st.root? xr.root with
+        | none => rw [hr] at hg; cases hg
+        | some c0 =>
+          rw [hr] at hg
+          simp only at hg
+          cases hp : c0.val.getP xr.path with
+          | none => rw [hp] at hg; cases hg
+          | some v =>
+            rw [hp] at hg; cases hg
+            rw [hroot] at hr
+            exact flagInv_root hinv1 (r := .var i) (c := c0) trivial hr
+      -- not a literal node: a literal evaluates to its own constant cell
+      have hncst : r.isCst = false := by
+        cases r <;> simp only [XExpr.isCst] <;> try rfl
+        rename_i j
+        cases fuel with
+        | zero => simp only [evalX, XM.fail] at hev; cases hev
+        | succ n =>
+          simp only [evalX] at hev
+          split at hev <;> cases hev
+          cases hroot
+      have hst : r.isStorage = true := by
+        cases hs : r.isStorage with
+        | true => rfl
+        | false => exact (hcond (by simp [hlv, hncst, hs])).elim
+      exact ⟨hst, storage_root F fuel r i hst s xr s1 hev hroot, rfl⟩
+
+/-- Non-vacuity: `x0.at(0)` as the receiver of `put` — a storage expression rooted at `x0`, handed on uncloned. -/
+example :
+    let t : Val := .tab { major := .int, level := 1 } [] [.int 7, .int 7]
+    let s : XS := { st := { vars := [⟨.tab { major := .int, level := 2 } [] [t, t], true⟩], csts := [⟨.int 0, true⟩], pool := [], wm := 0 } }
+    let r : XExpr := .mem .at (.var 0) [.cst 0]
+    FlagInvX s ∧ ∃ s1, evalX [] 3 r s = .ok (⟨.var 0, [0]⟩, s1) ∧ recvCell r ⟨.var 0, [0]⟩ s1 = .ok (⟨.var 0, [0]⟩, s1) ∧
+      r.isStorage = true ∧ rootVar r = some 0 := by
+  refine ⟨⟨by simp, by simp⟩, _, rfl, rfl, rfl, rfl⟩
+
+end Extended
 
 end BlocV.C05
